@@ -159,6 +159,8 @@ func (r *refStream) offs(c []byte) []int {
 // ---------------------------------------------------------------------------------------
 
 type tapState struct {
+	pend  []byte // bytes of an element that is not complete yet
+	fwd   int    // bytes forwarded so far
 	sc    vt.Scanner
 	name  string
 	attr  map[string]string
@@ -296,12 +298,26 @@ func requestLike(name, typ string) bool {
 
 // forward: endpoint peerOf(to) wrote p; tap it, then hand it to the session of `to`.
 func (w *World) forward(to string, p []byte) {
+	// The tap is a stanza-granular channel: bytes are handed to the receiving session only up
+	// to the end of the last COMPLETE top-level element (however the sender's writes split it),
+	// so a stanza is logged as seen on the wire before any part of it can be acted upon.
+	ts := w.tap[to]
+	ts.pend = append(ts.pend, p...)
 	if !w.isOver() {
-		w.tapBytes(to, w.tap[to], p, false)
+		w.tapBytes(to, ts, p, false)
+	} else {
+		ts.sc.Feed(p)
 	}
+	n := ts.sc.TopEnd - ts.fwd
+	if n <= 0 {
+		return
+	}
+	out := ts.pend[:n]
+	ts.pend = append([]byte(nil), ts.pend[n:]...)
+	ts.fwd += n
 	w.imu.Lock()
 	w.starve[to] = false
-	w.conn[to].Feed(p)
+	w.conn[to].Feed(out)
 	w.icond.Broadcast()
 	w.imu.Unlock()
 }
